@@ -4,6 +4,9 @@ from props import _generic as g
 
 def run(ctx):
     fns = g.run_pyvc(ctx, "C06")
+    res = ctx.cvc(["II", "IO", "OO"] if ctx.tier == "quick" else ["II", "IO", "OO", "LF", "QQ", "OI"], ["F-STATE"], functions=["bucket_getstate"])
+    from lib import replay
+    replay.replay_fstate(ctx, res)
     ctx.standin("pickle_rt", families=tuple("OO,II,LF,fs".split(",")))
     return "other", (
         "Engine P: the state functions of the pure-Python implementation are under contract (%d targets: %s): "
@@ -11,5 +14,8 @@ def run(ctx):
         "__setstate__ reads it back (TypeError exactly for a non-tuple first element), and the round trip "
         "x.__setstate__(y.__getstate__()) restores the ordered contents and the link (lemma programs over the "
         "contracts; sortedness is carried over). State items are a union sort; every use of an item as key/value/child "
-        "carries its own typing obligation. pickle/copy, byte identity between C and Python and the C state code are "
-        "outside both engines: bounded stand-in pickle_rt." % (len(fns), ", ".join(fns)))
+        "carries its own typing obligation. Engine C, F-STATE: the C bucket_getstate from its real body (both loops cut at "
+        "invariants) emits exactly the documented tuple for every length and content: 2*len resp. len items, item 2j the object of "
+        "keys[j] and item 2j+1 the object of values[j] (resp. item j the object of keys[j]), (items, next) iff there is a successor, "
+        "every PyTuple_SET_ITEM inside the tuple. pickle/copy, byte identity between C and Python, C __setstate__ and the C tree "
+        "state code are outside both engines: bounded stand-in pickle_rt." % (len(fns), ", ".join(fns)))
